@@ -3379,6 +3379,12 @@ func (c S3ApiController) HeadObject(ctx *fiber.Ctx) error {
 		partNumber = &partNumberQuery
 	}
 
+	// as for GetObject: a specific version is read with s3:GetObjectVersion
+	action := auth.GetObjectAction
+	if versionId != "" {
+		action = auth.GetObjectVersionAction
+	}
+
 	err := auth.VerifyAccess(ctx.Context(), c.be,
 		auth.AccessOptions{
 			Readonly:      c.readonly,
@@ -3388,7 +3394,7 @@ func (c S3ApiController) HeadObject(ctx *fiber.Ctx) error {
 			Acc:           acct,
 			Bucket:        bucket,
 			Object:        key,
-			Action:        auth.GetObjectAction,
+			Action:        action,
 		})
 	if err != nil {
 		return SendResponse(ctx, err,
